@@ -92,6 +92,9 @@ ACCESSORS = [
     ("astimezone-pendulum-fixed", lambda v: v.astimezone(_PEND["fixed"])),
     ("year..fold", lambda v: (v.year, v.month, v.day, v.hour, v.minute, v.second, v.microsecond, v.fold)),
     ("format", lambda v: format(v, "%Y/%m/%d %H:%M")),
+    ("format-literal-first", lambda v: format(v, "on %d.%m.%Y at %H:%M (week %W)")),
+    ("fstring-literal-first", lambda v: f"{v:T%H%M%S}"),
+    ("str.format", lambda v: "{:day %j of %Y}".format(v)),
 ] + [(f"strftime({d})", (lambda v, d=d: v.strftime(d))) for d in DIRECTIVES.split("|")]
 
 
@@ -275,6 +278,7 @@ def check_date(acc, pendulum, n1, n2):
                          ("toordinal", lambda v: v.toordinal()), ("weekday", lambda v: v.weekday()),
                          ("isoweekday", lambda v: v.isoweekday()), ("isocalendar", lambda v: v.isocalendar()),
                          ("ctime", lambda v: v.ctime()), ("str", str), ("format", lambda v: format(v, "%d.%m.%Y")),
+                         ("format-literal-first", lambda v: format(v, "Week %W of %Y")),
                          ("strftime", lambda v: v.strftime("%a %A %d %b %B %m %y %Y %j %U %W %x %G %u %V"))]:
             got, want = _try(lambda: fn(x)), _try(lambda: fn(b))
             acc.c["evaluations"] += 1
@@ -328,6 +332,7 @@ def check_time(acc, pendulum, u1, u2, tzname):
         for name, fn in [("isoformat", lambda v: v.isoformat()), ("isoformat-ms", lambda v: v.isoformat("milliseconds")),
                          ("utcoffset", lambda v: v.utcoffset()), ("tzname", lambda v: v.tzname()), ("dst", lambda v: v.dst()),
                          ("str", str), ("strftime", lambda v: v.strftime("%H|%I|%p|%M|%S|%f|%z|%Z|%X")),
+                         ("format", lambda v: format(v, "%H:%M")), ("format-literal-first", lambda v: format(v, "at %H:%M:%S")),
                          ("fields", lambda v: (v.hour, v.minute, v.second, v.microsecond, v.fold))]:
             got, want = _try(lambda: fn(x)), _try(lambda: fn(b))
             acc.c["evaluations"] += 1
